@@ -682,5 +682,42 @@ def run(chk, prog):
                           % (fq["qname"].replace("vfps::", ""), A.show(sz["args"][1])[:40], x["line"], A.show(a_)[:30]),
                           "%s:setSize-vs-filling:%s" % (fq["qname"].replace("vfps::", ""), A.show(a_)[:30].replace(" ", "")))
     chk.floor("R8-sized-constructions", n8, 3)
+    # ---- R9: no member initialiser uses a member that is constructed later ------------------------------------------------------------------------
+    # members are constructed in the order of their declaration, whatever the order of the initialiser list: an initialiser that reads a
+    # member declared further down (directly, or through a member function it calls) uses an object that does not exist yet
+    from .. import effects as Ef9
+    eff9 = Ef9.Effects(prog)
+    n9 = 0
+    for q9, rec9 in sorted(prog.records.items()):
+        if not q9.startswith("vfps::"):
+            continue
+        order9 = {fld["name"]: k_ for k_, fld in enumerate(rec9.get("fields", []))}
+        if not order9:
+            continue
+        for c9 in prog.functions.values():
+            if c9.get("class") != q9 or c9.get("kind") != "ctor" or not c9.get("inits"):
+                continue
+            for i9 in c9["inits"]:
+                if i9.get("ikind") != "member" or i9.get("target") not in order9 or not isinstance(i9.get("expr"), dict):
+                    continue
+                reads9 = {}
+                for y in A.walk(i9["expr"]):
+                    f_ = A.this_field(y)
+                    if f_ in order9:
+                        reads9.setdefault(f_, "read directly")
+                    if y.get("k") == "CXXMemberCallExpr" and (A.call_object(y) is None or A.is_this(A.strip(A.call_object(y)))):
+                        for cal9 in [g_ for g_ in prog.fns(y.get("callee") or "") if g_.get("body") and g_.get("class") == q9]:
+                            try:
+                                for (o_, fld_, sel_) in eff9.summary(cal9, q9).reads:
+                                    if o_ == "this" and fld_ in order9:
+                                        reads9.setdefault(fld_, "read by %s()" % cal9["name"])
+                            except Exception:
+                                pass
+                n9 += 1
+                late9 = sorted((f_, how_) for f_, how_ in reads9.items() if order9[f_] > order9[i9["target"]])
+                chk.check(not late9, "R9", A.loc(c9, {"line": i9["line"]}), "%s: the initialiser of %s uses only members declared before it (%s)"
+                          % (q9.replace("vfps::", ""), i9["target"], ["%s, %s, is declared after it" % t_ for t_ in late9] or "ok"),
+                          "init-order:%s::%s:%s" % (q9.replace("vfps::", ""), i9["target"], [t_[0] for t_ in late9]))
+    chk.floor("R9-member-initialisers", n9, 100)
     chk.notes.append("C17: %d bounds obligations on the work arrays (symbolic max index vs. allocation extent), stream-extraction discipline, definite assignment "
                      "of scalar locals over all functions, foreign-container subscripts, guarded integer division. NOT decided: UB-freedom in general, libraries." % n1)
